@@ -76,7 +76,7 @@ def dropPrefixCI? : (p s : Text) → Option Text
 def skipSpaces (s : Text) : Text := s.dropWhile (· == ' ')
 def skipWs (s : Text) : Text := s.dropWhile isWs
 
-/-! ### 1. `suppress_first_comments` : `(?i)\A(#(?!\s*paroxython\s*:).*\n)*` ↦ "" -/
+/-! ### 1. `suppress_first_comments` : `(?i)\A(#(?!(?:.*#)?\s*paroxython\s*:).*\n)*` ↦ "" -/
 
 /-- The negative look-ahead after a `#`: `\s*paroxython\s*:` in any case. `\s` also matches a newline:
 the look-ahead reads the rest of the TEXT, not only the rest of the line. -/
@@ -88,13 +88,23 @@ def hintAhead (afterHash : Text) : Bool :=
     | _ => false
   | none => false
 
-/-- Drop the leading lines that start with `#` not followed by the hint marker — a line counts only
-if it is terminated by a newline, i.e. is not the last element of the split. -/
+/-- `(?:.*#)` part of the look-ahead: some later `#` of the SAME line (`.` does not match a newline)
+is followed by the marker. -/
+def hashScan : Text → Bool
+  | [] => false
+  | c :: cs => if c = '\n' then false else (c == '#' && hintAhead cs) || hashScan cs
+
+/-- The whole negative look-ahead after the first `#` of a line (repair 643e8d6): the marker follows
+this `#` or any later `#` of the line. -/
+def hintAheadAny (afterHash : Text) : Bool := hintAhead afterHash || hashScan afterHash
+
+/-- Drop the leading lines that start with `#` and carry no hint marker after any of their `#` — a line
+counts only if it is terminated by a newline, i.e. is not the last element of the split. -/
 def dropLeadingComments : List Line → List Line
   | [] => []
   | [l] => [l]
   | l :: m :: rest =>
-    if l.head? = some '#' ∧ hintAhead (joinNl (l.tail :: m :: rest)) = false then
+    if l.head? = some '#' ∧ hintAheadAny (joinNl (l.tail :: m :: rest)) = false then
       dropLeadingComments (m :: rest)
     else l :: m :: rest
 
@@ -245,7 +255,7 @@ structure Token where
 inductive Piece where
   | dropped                 -- a comment without hint: `continue`
   | hint (s : Text)         -- a hint comment, normalised
-  | pass                    -- `"pass\n"` instead of a docstring-like STRING statement
+  | pass                    -- `"pass"` instead of a docstring-like STRING statement
   | verbatim (s : Text)
   deriving DecidableEq, Repr, Inhabited
 
@@ -282,9 +292,12 @@ hide a statement start. -/
 def nextPrev (p k : Kind) : Kind :=
   if (k = .nl ∨ k = .comment) ∧ p.opensStmt = true then p else k
 
-/-- One iteration of the `for (i, token_info) in enumerate(tokens)` loop; `next` is the kind of
-`tokens[i + 1]` when there is one (it is only looked at for a STRING at a statement start; its
-absence then raises IndexError, see `loopRaises`). -/
+/-- `next((t[0] for t in tokens[i + 1:] if t[0] != COMMENT), None)`: the kind of the first token
+after position `i` that is not a COMMENT, if any. -/
+def lookAhead (rest : List Token) : Option Kind := (rest.find? fun t => t.kind != .comment).map (·.kind)
+
+/-- One iteration of the `for (i, token_info) in enumerate(tokens)` loop; `next` is the look-ahead of
+repair 4b0a4d7 (`lookAhead` of the tokens that follow): total, no IndexError. -/
 def step (st : LoopState) (t : Token) (next : Option Kind) : LoopState × Emit :=
   let pecol := if t.srow > st.perow then 0 else st.pecol
   -- explicit line joining (backslash): one space keeps the two tokens apart (repair 55c4b14)
@@ -304,32 +317,21 @@ def step (st : LoopState) (t : Token) (next : Option Kind) : LoopState × Emit :
     (after (t.ecol + braceCount t.str), ⟨pad, .verbatim (doubleBraces t.str)⟩)
   else (after t.ecol, ⟨pad, .verbatim t.str⟩)
 
-def nextKind (ts : List Token) : Option Kind := ts.head?.map (·.kind)
-
 def loopFrom : LoopState → List Token → List Emit
   | _, [] => []
-  | st, t :: ts => (step st t (nextKind ts)).2 :: loopFrom (step st t (nextKind ts)).1 ts
+  | st, t :: ts => (step st t (lookAhead ts)).2 :: loopFrom (step st t (lookAhead ts)).1 ts
 
 /-- The state reached after a list of tokens followed by `rest`. -/
 def stateAfter : LoopState → List Token → (rest : List Token) → LoopState
   | st, [], _ => st
-  | st, t :: ts, rest => stateAfter (step st t (nextKind (ts ++ rest))).1 ts rest
-
-/-- `tokens[i + 1]` raises IndexError: the LAST token is a STRING at a statement start (never the
-case for CPython's tokenizer, which ends with ENDMARKER). -/
-def loopRaisesFrom : LoopState → List Token → Bool
-  | _, [] => false
-  | st, [t] => t.kind = .string && st.prev.opensStmt
-  | st, t :: t' :: ts => loopRaisesFrom (step st t (some t'.kind)).1 (t' :: ts)
-
-def loopRaises (ts : List Token) : Bool := loopRaisesFrom .init ts
+  | st, t :: ts, rest => stateAfter (step st t (lookAhead (ts ++ rest))).1 ts rest
 
 def loop (ts : List Token) : List Emit := loopFrom .init ts
 
 def Piece.text : Piece → Text
   | .dropped => []
   | .hint s => s
-  | .pass => "pass\n".toList
+  | .pass => "pass".toList
   | .verbatim s => s
 
 def Emit.text (e : Emit) : Text := List.replicate e.pad ' ' ++ e.piece.text
@@ -400,17 +402,12 @@ def finish (joined : Text) : Text := suppressUselessPass (suppressBlankLines (st
 
 def postprocess (ts : List Token) : Text := finish (loopText ts)
 
-inductive CleanErr (ε : Type) where
-  | tokenizer (e : ε)
-  | indexError
-  deriving Repr
-
-/-- `Cleanup.full_cleaning`, the tokenizer being a parameter that may raise (all tokens are produced
-before the loop starts). -/
+/-- `Cleanup.full_cleaning`, the parser and the tokenizer being parameters; the tokenizer may raise
+(all tokens are produced before the loop starts), the loop itself cannot. -/
 def fullCleaning {ε : Type} (parse : Text → Option (List (Nat × Nat)))
-    (tokenize : Text → Except ε (List Token)) (src : Text) : Except (CleanErr ε) Text :=
+    (tokenize : Text → Except ε (List Token)) (src : Text) : Except ε Text :=
   match tokenize (preprocess parse src) with
-  | .error e => .error (.tokenizer e)
-  | .ok ts => if loopRaises ts then .error .indexError else .ok (postprocess ts)
+  | .error e => .error e
+  | .ok ts => .ok (postprocess ts)
 
 end Paroxy.Cleanup
